@@ -224,7 +224,21 @@ class CFG:
             self._edge(nid, nxt, "n")
             return nid
         if type(st).__name__ == "Match":
-            raise AnalysisError(f"match statement not modelled (line {st.lineno})")
+            # a chain of tests, one per case, in order; the first node also evaluates the subject
+            nxt_case = nxt
+            first = True
+            for case in reversed(st.cases):
+                test = match_case_test(st.subject, case)
+                nid = self._new("if", case, test)
+                folded = True if isinstance(test, ast.Constant) and test.value is True else self.fold(test)
+                if folded is not False:
+                    self._edge(nid, self._seq(case.body, nxt, ctx), "T")
+                if folded is not True:
+                    self._edge(nid, nxt_case, "F")
+                self._raise_edges(nid, test, ctx)
+                nxt_case = nid
+            self.by_ast.setdefault(id(st), []).append(nxt_case)
+            return nxt_case
         # simple statement
         nid = self._new("stmt", st, st)
         self._edge(nid, nxt, "n")
@@ -408,6 +422,32 @@ class CFG:
 # ---------------------------------------------------------------------------
 # guard polarity: which outgoing edge of a test guarantees an atom
 # ---------------------------------------------------------------------------
+
+
+def match_case_test(subject: ast.AST, case: ast.AST) -> ast.AST:
+    """The boolean expression a `case` of a match statement tests (an equivalent `if` condition): value and singleton
+    patterns compare the subject, `|` is `or`, `_` is True, a class pattern without sub-patterns is isinstance;
+    anything else (captures, sequence / mapping / nested patterns) is an opaque call `__match__(subject, '<pattern>')`."""
+    def pat(p: ast.AST) -> ast.AST:
+        k = type(p).__name__
+        if k == "MatchValue":
+            return ast.Compare(left=subject, ops=[ast.Eq()], comparators=[p.value])
+        if k == "MatchSingleton":
+            return ast.Compare(left=subject, ops=[ast.Is()], comparators=[ast.Constant(value=p.value)])
+        if k == "MatchOr":
+            return ast.BoolOp(op=ast.Or(), values=[pat(x) for x in p.patterns])
+        if k == "MatchAs" and p.pattern is None and p.name is None:
+            return ast.Constant(value=True)
+        if k == "MatchClass" and not p.patterns and not p.kwd_patterns:
+            return ast.Call(func=ast.Name(id="isinstance", ctx=ast.Load()), args=[subject, p.cls], keywords=[])
+        return ast.Call(func=ast.Name(id="__match__", ctx=ast.Load()), args=[subject, ast.Constant(value=ast.unparse(p))], keywords=[])
+
+    test = pat(case.pattern)
+    if case.guard is not None:
+        test = case.guard if isinstance(test, ast.Constant) and test.value is True else ast.BoolOp(op=ast.And(), values=[test, case.guard])
+    ast.copy_location(test, case.pattern)
+    ast.fix_missing_locations(test)
+    return test
 
 
 def edges_guaranteeing(test: ast.AST, atom: Callable[[ast.AST], Optional[bool]]) -> Set[str]:
